@@ -24,7 +24,7 @@ from .. import roundtrip_bind as rb
 from .. import rt_engine as rt
 
 DOCUMENTED = (ParserError, ConverterError, XmlContextError, XmlHandlerError)
-FAULTS = ("unknownFirst", "unknownLast", "unknownAttr", "xsiAttr", "badValue", "childInPrimitive", "missingReq")
+FAULTS = ("unknownFirst", "unknownLast", "siblingInWrapper", "unknownAttr", "xsiAttr", "badValue", "childInPrimitive", "missingReq")
 INVS = ("InvSlots", "InvDocumented", "InvProgress")
 
 
